@@ -88,20 +88,24 @@ class ConstFeaturesCalculator(FeaturesCalculator):
         self.const = torch.tensor(const)
         self.mask = torch.ones((const,))
         self.mod = None
+        self.prefix = ""
 
     @property
     def features(self) -> torch.Tensor:
-        return cast(torch.Tensor, cast(nn.Module, self.mod).feat_calc_const)
+        return cast(torch.Tensor, getattr(self.mod, self.prefix + 'feat_calc_const'))
 
     @property
     def features_mask(self) -> torch.Tensor:
-        return cast(torch.Tensor, cast(nn.Module, self.mod).feat_calc_mask)
+        return cast(torch.Tensor, getattr(self.mod, self.prefix + 'feat_calc_mask'))
 
     def register(self, mod: nn.Module, prefix: str = ""):
         if self.mod is None:
             self.mod = mod
-            mod.register_buffer('feat_calc_const', self.const)
-            mod.register_buffer('feat_calc_mask', self.mask)
+            # the prefix keeps apart several calculators registered on the same module
+            # (e.g. two constant-width tensors that are concatenated)
+            self.prefix = prefix
+            mod.register_buffer(prefix + 'feat_calc_const', self.const)
+            mod.register_buffer(prefix + 'feat_calc_mask', self.mask)
 
 
 class ModAttrFeaturesCalculator(FeaturesCalculator):
